@@ -42,10 +42,10 @@ ENV.update(GOFLAGS="-mod=mod", GOPROXY="off", GOSUMDB="off", GOTOOLCHAIN="local"
 PROPS = {
     "C05": dict(level="exploration", race=False, quick_count=8000, quick_budget=40, thorough_budget=600),
     "C06": dict(level="exploration", race=False, quick_count=40000, quick_budget=40, thorough_budget=600),
-    "C07": dict(level="fault_enumeration", race=False, quick_count=450, quick_budget=40, thorough_budget=600),
+    "C07": dict(level="fault_enumeration", race=False, quick_count=300, quick_budget=40, thorough_budget=600),
     "C08": dict(level="exploration", race=False, quick_count=12000, quick_budget=40, thorough_budget=600),
     "C09": dict(level="exploration", race=False, quick_count=6000, quick_budget=40, thorough_budget=600),
-    "C10": dict(level="fault_enumeration", race=True, quick_count=450, quick_budget=40, thorough_budget=600),
+    "C10": dict(level="fault_enumeration", race=True, quick_count=300, quick_budget=40, thorough_budget=600),
     "C12": dict(level="exploration", race=False, quick_count=8000, quick_budget=40, thorough_budget=600),
     "C13": dict(level="fault_enumeration", race=True, quick_count=200, quick_budget=40, thorough_budget=600),
     "C18": dict(level="exploration", race=False, quick_count=5000, quick_budget=40, thorough_budget=600),
@@ -122,12 +122,12 @@ def load_known():
     return known, fixed
 
 
-def run_workers(binary, prop, tier, seed, nshards, count, budget, extra_env=None, tmpdir=None):
+def run_workers(binary, prop, tier, seed, nshards, count, budget, extra_env=None, tmpdir=None, shard_base=0):
     procs = []
-    for sh in range(nshards):
+    for sh in range(shard_base, shard_base + nshards):
         out = os.path.join(tmpdir, "w%d.json" % sh)
         e = dict(ENV)
-        e.update(VERIF_PROP=prop, VERIF_TIER=tier, VERIF_SEED=str(seed), VERIF_SHARD=str(sh), VERIF_NSHARDS=str(nshards),
+        e.update(VERIF_PROP=prop, VERIF_TIER=tier, VERIF_SEED=str(seed), VERIF_SHARD=str(sh), VERIF_NSHARDS=str(max(nshards, 16)),
                  VERIF_COUNT=str(count), VERIF_BUDGET_S=str(budget), VERIF_OUT=out, VERIF_REPLAY_DIR=REPLAYS)
         if extra_env:
             e.update(extra_env)
@@ -272,7 +272,26 @@ def _check(prop, tier, cfg, seed, t0, ev_path, tmpdir):
 
         def go(key, *a, **k):
             box[key] = run_workers(*a, **k)
-        th = threading.Thread(target=go, args=("race", race_binary, prop, tier + "-race", seed + 1000003, n_race, max(1, count // 4), budget), kwargs=dict(tmpdir=d2))
+
+        def go_race():
+            # many short-lived race-binary processes instead of a few long ones: state that the
+            # library initialises lazily exists once per process, so each fresh process is a new chance
+            res, tr = [], []
+            rounds = 6 if tier == "quick" else 10 ** 6
+            per = max(1, count // 4 // 6) if tier == "quick" else 40
+            t_end = time.time() + budget
+            for rnd in range(rounds):
+                if time.time() > t_end:
+                    break
+                dd = os.path.join(d2, "r%d" % rnd)
+                os.makedirs(dd)
+                r1, t1 = run_workers(race_binary, prop, tier + "-race", seed + 1000003, n_race, per, max(5, int(t_end - time.time())), tmpdir=dd, shard_base=rnd * n_race)
+                res += r1
+                tr += t1
+                if t1 or any(x.get("violations") for x in r1):
+                    break
+            box["race"] = (res, tr)
+        th = threading.Thread(target=go_race)
         th.start()
         go("plain", binary, prop, tier, seed, n_plain, count, budget, tmpdir=d1)
         th.join()
@@ -296,10 +315,20 @@ def _check(prop, tier, cfg, seed, t0, ev_path, tmpdir):
     for v in m["violations"]:
         b = race_binary if v.get("race") else binary
         if v.get("sidecar"):
-            if replay_sidecar(b, v["replay"], tmpdir):
+            again = False
+            for _ in range(4):
+                if replay_sidecar(b, v["replay"], tmpdir):
+                    again = True
+                    break
+            # A race-detector report has no false positives. If the report names code of the library
+            # under test it is accepted even when the (uncontrolled) schedule does not reproduce it.
+            lib = re.search(r"github\.com/koron-go/z80\.\(?\*?[A-Za-z]", v["detail"] + json.load(open(v["replay"])).get("observed", ""))
+            if again or lib:
+                if not again:
+                    v = dict(v, detail=v["detail"] + "\n  (not reproduced in 4 further runs of the stress configuration; accepted: the detector's report is sound and names library code)")
                 confirmed.append(v)
             else:
-                unconfirmed.append((v, "race detector did not report again on a second run of the same stress configuration"))
+                unconfirmed.append((v, "race detector did not report again on further runs of the same stress configuration and the report names no library code"))
             continue
         rr, so = replay_once(b, prop, v["replay"], tmpdir)
         tries = 1
